@@ -35,7 +35,7 @@ def setup(sc):
         lo_, hi_ = min(pts), max(pts)
         kw["change"] = ir.Series(start=base + lo_, values=np.array([pts.get(t, math.nan) for t in range(lo_, hi_ + 1)], dtype=float))
     if len(sc["span"]):
-        kw["span"] = ir.Span(base + sc["span"][0], base + sc["span"][1])
+        kw["span"] = ir.Span(base + sc["span"][1], base + sc["span"][0], -1) if sc["rev"] else ir.Span(base + sc["span"][0], base + sc["span"][1])
         out = (sc["span"][0], sc["span"][1])
     else:
         # default: the span of the input series (trimmed)
@@ -196,7 +196,7 @@ def run(chk):
             chk.sample({"scenario": _plain(sc), "spec_trend_num": _plain(out["num"]), "spec_trend_den": _plain(out["den"]), "filter_span_starts_at": out["lo"]})
         obs = [i for i, v in enumerate(sc["data"]) if not nanv(v)]
         # two scenarios can be stacked as variants when their observed hulls coincide (the filter span of a multi-variant series is the common one)
-        key = (len(sc["data"]), obs[0], obs[-1], sc["lam"], sc["lev"], sc["chg"], sc["chg2"], sc["span"], sc["log"])
+        key = (len(sc["data"]), obs[0], obs[-1], sc["lam"], sc["lev"], sc["chg"], sc["chg2"], sc["span"], sc["rev"], sc["log"])
         groups.setdefault(key, []).append((sc, out))
     os.remove(dump)
     pairs = 0
